@@ -41,6 +41,7 @@ type Ctx struct {
 	requested map[string]bool
 	idx       map[*packages.Package]*pkgIndex
 
+	Renamed []string // renamed functions recognised by signature
 	// load configuration (for evidence)
 	LoadEnv   []string
 	LoadFlags []string
@@ -112,6 +113,7 @@ func loadCtx(repo, tier string, extraEnv []string, buildFlags []string) (*Ctx, e
 		}
 	}
 	sort.Slice(c.all, func(i, j int) bool { return c.all[i].Key() < c.all[j].Key() })
+	c.Renamed = c.resolveRenames()
 	return c, nil
 }
 
@@ -258,9 +260,82 @@ func (c *Ctx) Pos(p token.Pos) string {
 	return fmt.Sprintf("%s:%d", strings.TrimPrefix(pp.Filename, c.Repo+"/"), pp.Line)
 }
 
+// funcAlias maps a function object whose declared name differs from the name
+// the rules know it by (a renamed helper, recognised by its unique signature —
+// see resolveRenames) to that canonical name.
+var funcAlias = map[*types.Func]string{}
+
+// sigKey renders a function's receiver type and parameter/result types without names.
+func sigKey(f *types.Func) string {
+	sig := f.Type().(*types.Signature)
+	q := func(p *types.Package) string { return p.Path() }
+	var sb strings.Builder
+	if sig.Recv() != nil {
+		sb.WriteString("(" + types.TypeString(sig.Recv().Type(), q) + ") ")
+	}
+	sb.WriteString("(")
+	for i := 0; i < sig.Params().Len(); i++ {
+		if i > 0 {
+			sb.WriteString(", ")
+		}
+		if sig.Variadic() && i == sig.Params().Len()-1 {
+			sb.WriteString("...")
+		}
+		sb.WriteString(types.TypeString(sig.Params().At(i).Type(), q))
+	}
+	sb.WriteString(") (")
+	for i := 0; i < sig.Results().Len(); i++ {
+		if i > 0 {
+			sb.WriteString(", ")
+		}
+		sb.WriteString(types.TypeString(sig.Results().At(i).Type(), q))
+	}
+	sb.WriteString(")")
+	return sb.String()
+}
+
+// resolveRenames recognises functions of the pinned tree that were merely
+// renamed: a known function name that no longer exists is matched to the one
+// function of the same package with the same receiver and signature whose own
+// name is not known, provided that signature was unique in the pinned tree.
+func (c *Ctx) resolveRenames() []string {
+	var notes []string
+	known := map[string]bool{}
+	sigCount := map[string]int{}
+	for _, a := range anchorSigs {
+		known[a[0]+"::"+a[1]] = true
+		sigCount[a[0]+"|"+a[2]]++
+	}
+	for _, a := range anchorSigs {
+		key := a[0] + "::" + a[1]
+		if c.funcs[key] != nil || sigCount[a[0]+"|"+a[2]] != 1 {
+			continue
+		}
+		var cands []*FuncInfo
+		for _, fi := range c.all {
+			if fi.Pkg.PkgPath == a[0] && !known[fi.Key()] && sigKey(fi.Obj) == a[2] {
+				cands = append(cands, fi)
+			}
+		}
+		if len(cands) != 1 {
+			continue
+		}
+		fi := cands[0]
+		notes = append(notes, fi.Name+" is treated as the renamed "+a[1]+" (same unique signature)")
+		funcAlias[fi.Obj] = a[1]
+		delete(c.funcs, fi.Key())
+		fi.Name = a[1]
+		c.funcs[key] = fi
+	}
+	return notes
+}
+
 // funcName renders "name" for package functions and "Recv.name" for methods
 // (pointer-ness of the receiver dropped).
 func funcName(f *types.Func) string {
+	if a, ok := funcAlias[f]; ok {
+		return a
+	}
 	sig, _ := f.Type().(*types.Signature)
 	if sig != nil && sig.Recv() != nil {
 		t := sig.Recv().Type()
@@ -322,4 +397,15 @@ func importedPkg(p *packages.Package, path string) *types.Package {
 		return nil
 	}
 	return walk(p)
+}
+
+func (c *Ctx) linkedNames() []string {
+	var out []string
+	for h, call := range c.linkedTo {
+		if from := c.enclosingFunc(h.Pkg, call); from != nil {
+			out = append(out, h.Name+" → "+from.Name)
+		}
+	}
+	sort.Strings(out)
+	return out
 }
